@@ -62,4 +62,29 @@ TEXT = {
         "note": "Trusted: Lean kernel (+3 standard axioms), harness/abs/driver tie, bank keeper as ledger. Deposits are what NewGauge callers put in; third-party transfers into a gauge account are outside the quantifier. What accrued after the last in-interval reward block stays in the gauge account (the statement releases nothing after End).",
         "technique": "Lean 4 theorems over exact sdk.Dec gauge arithmetic + per-block model/implementation correspondence",
     },
+    "C11": {
+        "level": "Regenerated obligations: the table of all registered message types of the custom modules (45 today, extracted from the running app on every run) is checked in Lean to have exactly one signer taken from the Creator field and a handler for every row (C11_signers_are_creator, C11_registered_and_routable, by decide over the regenerated table). Frame theorems over the models: provider messages touch only the creator's record and need it to exist, feed updates need feed.owner = creator and touch one feed, creations never overwrite, delete/block write only keys starting with the signer, MakePrimary sets only the signer's record, storage DeleteFile removes only files whose owner is the signer, a contract posts only in its own name. Real signed DeliverTx for every type: creator's key accepted, another key rejected.",
+        "note": "Trusted: Lean kernel (+3 standard axioms), the reflection-based table extraction, harness/driver tie. Signature verification is the SDK's (observed, not modelled).",
+        "technique": "Lean 4 obligations over a table regenerated from the running app + frame theorems over the module models + real signed transactions",
+    },
+    "C05": {
+        "level": "BeginBlock is modelled as Except String State with every panicking primitive of the Go code explicit (division by zero, negative coin amount, Int64 out of range, zero check window). Proved: the sizes invariant (every stored file has FileSize >= 1 and MaxProofs >= 1, check window != 0) is established by PostFile's validation and preserved by every message, by the block and along all histories; under it the reward payout never panics (total > 0 whenever someone is credited, all credited sizes and owed amounts non-negative) and the whole beginBlock returns ok given the explicit gauge-safety hypothesis, which is proved to hold for funded gauges of at least a day with amounts below 2^62 (C05_beginBlock_never_panics, C05_gauges_safe_after_creation, C05_history_never_panics); the mint emission and its three shares are non-negative (C05_mint_never_panics); no custom module has an EndBlocker. Pre-fix witnesses (zero / negative size, sub-microsecond gauge) by decide. The correspondence runs the full app BeginBlock/EndBlock with recover around it on adversarial histories.",
+        "note": "Partial by nature: panics inside unmodelled SDK modules' BeginBlockers are only observed by the harness, not excluded by a theorem; the gauge-safety hypothesis at later blocks (withdrawals stay on schedule) is assumed at each block and observed by the correspondence, not derived. Trusted: Lean kernel (+3 standard axioms), harness tie.",
+        "technique": "Lean 4 no-panic theorem over an Except-valued BeginBlock model under a proved invariant + adversarial correspondence on the assembled app",
+    },
+    "C07": {
+        "level": "Invariant proved for every message, the reward block and all histories from the empty state: for every plan, SpaceUsed = sum of FileSize*MaxProofs over the account's live plan-paid files, 0 <= used <= available (C07_step_preserves, C07_block_preserves, C07_space_invariant); posting without a plan / with an expired plan / beyond the remaining space fails and changes nothing; delete and the chain's drop of a prover-less file return exactly the footprint; buying carries the usage over and refuses plans below it. Pre-fix witness (delete leaks) by decide. Tied to the code by the per-step correspondence (including int64 boundary sizes) on every run.",
+        "note": "Trusted: Lean kernel (+3 standard axioms), harness/abs/driver tie. Plan-paid = Expires <= 0 (as PostFile treats it).",
+        "technique": "Lean 4 invariant by induction over histories + per-step model/implementation correspondence",
+    },
+    "C14": {
+        "level": "Theorems over the form handlers for every state: an attestation refreshes a deadline (a report removes a prover) only if the form exists, the signer is named on it and the number of complete entries reaches the minimum — a quorum of distinct named providers since form names are distinct (invariant along histories); only the signer's own entries flip; outsiders, repeated signatures and signatures on consumed forms change nothing (idempotence proved unconditionally); a new form names exactly the chosen providers, all incomplete, and the eligible set (for any host parser) contains only registered providers holding proofs and never the prover itself; every complete entry on an open form is backed by a message signed by that provider (history theorem). Tied to the code by the per-step correspondence, the shuffled provider list being an oracle input checked against these constraints by the monitor.",
+        "note": "Trusted: Lean kernel (+3 standard axioms), harness/abs/driver tie, net/url hostname parsing and the height-seeded shuffle as oracle inputs (any function / any duplicate-free selection).",
+        "technique": "Lean 4 theorems over the form handlers + history invariants + per-step model/implementation correspondence",
+    },
+    "C17": {
+        "level": "Invariant proved for all 15 messages, the full reward block and every history from the empty state: the by-content and by-owner indexes are equal as maps, every file sits under its own key, prover lists are duplicate-free and never longer than MaxProofs, every listed prover has a proof record whose fields refer back to that file (C17_invariant_preserved_by_messages, _by_reward_block, C17_along_histories) plus injectivity of both raw key encodings on '/'-free components. Tied to the code by the per-step correspondence reading both indexes and the proof store raw.",
+        "note": "Trusted: Lean kernel (+3 standard axioms), harness/abs/driver tie (raw keys are parsed and checked against the key the record's own fields produce).",
+        "technique": "Lean 4 invariant by induction over histories + per-step model/implementation correspondence",
+    },
 }
